@@ -180,10 +180,24 @@ func (ans *answer) Return(e error) {
 		case <-ans.c.bgctx.Done():
 		default:
 			ans.c.tasks.Done() // added by handleCall
-			if err := ans.c.shutdown(err); err != nil {
-				ans.c.report(err)
-			}
-			// shutdown released c.mu
+			// Shut down from another goroutine: shutdown releases the
+			// connection's capabilities, and a server's Shutdown waits
+			// for its running calls, of which the caller may be one.
+			ans.c.mu.Unlock()
+			go func() {
+				ans.c.mu.Lock()
+				select {
+				case <-ans.c.bgctx.Done():
+					// Somebody else has started the shutdown.
+					ans.c.mu.Unlock()
+					return
+				default:
+				}
+				// shutdown releases c.mu
+				if err := ans.c.shutdown(err); err != nil {
+					ans.c.report(err)
+				}
+			}()
 			rl.release()
 			ans.pcalls.Wait()
 			return
